@@ -83,6 +83,10 @@ def predicting(args):
         r_eval = r_pred = 0
         r_x, r_y, r_train = [], [], []
         for i in range(k):
+            if args.get('train_step_changes') and i == args['train_step_changes']:
+                # the user switches the retraining schedule in the middle of a run (sampling phase with -1 first, a
+                # positive step later -- the library's own surrogate example does that)
+                model.train_step = [-1, 1, 2, 3][ctx.choice('train_step_from_request_%d' % i, 4)]
             ind = Individual(ec.sym_vector(ctx, 'r%d' % i, prob))
             box['requests'].append(ind)
             ncons, ncalls, npred = len(box['consulted']), len(prob.h.calls), len(box['predicted'])
@@ -160,6 +164,12 @@ def configs(tier):
     for k in ((2, 3) if tier == 'quick' else (2, 3, 4)):
         out.append({'name': 'predict-k%d-nohook-objective-may-return-inf' % k, 'task': 'predicting',
                     'args': {'k': k, 'hook': False, 'inf': True}, 'weight': 4 ** k, 'split': 48 if k >= 4 else None, 'engine': {'validate': 20}})
+    for k, at in (((3, 1), (4, 2)) if tier == 'quick' else ((3, 1), (4, 2), (5, 2), (5, 3))):
+        out.append({'name': 'predict-k%d-nohook-train_step-changes-at-request-%d' % (k, at), 'task': 'predicting',
+                    'args': {'k': k, 'hook': False, 'train_step_changes': at}, 'weight': 4 * 2 ** k * 4, 'split': 48 if k >= 4 else None,
+                    'engine': {'validate': 20}})
+    out.append({'name': 'predict-k3-hook-train_step-changes-at-request-1', 'task': 'predicting',
+                'args': {'k': 3, 'hook': True, 'train_step_changes': 1}, 'weight': 4 ** 3 * 4, 'split': 48, 'engine': {'validate': 20}})
     out.append({'name': 'predict-k2-hook-objective-may-return-inf', 'task': 'predicting',
                 'args': {'k': 2, 'hook': True, 'inf': True}, 'weight': 40, 'engine': {'validate': 20}})
     return out
